@@ -486,8 +486,7 @@ fn main() {
 
 fn gen(a: &Args) {
     let mut rng = Rng::new(a.seed);
-    let mut w = CaseWriter::new(&a.out, "C12", "Corr.C12", 400);
-    let dir = tmp_dir("gen");
+    let mut w = CaseWriter::new(&a.out, "C12", "Corr.C12", 250);
     let mut hs: Vec<(Hist, &'static str)> = vec![];
     if let Some(lines) = a.replay_lines() {
         for l in lines { if let Some(h) = parse_hist(&l) { hs.push((h, "replay")); } }
@@ -495,39 +494,63 @@ fn gen(a: &Args) {
         let n = if a.thorough() { 10_000 } else { 700 };
         for _ in 0..n { hs.push(gen_history(&mut rng, a.thorough())); }
     }
+    let all_obs = run_all(&hs.iter().map(|x| x.0.clone()).collect::<Vec<_>>(), "gen");
     let mut in_class = 0u64;
     let mut gens_total = 0u64;
-    for (h, kind) in hs {
-        let obs = run_hist(&h, &dir);
+    for ((h, kind), obs) in hs.into_iter().zip(all_obs.into_iter()) {
         let (trace, _, class) = judge(&h, &obs);
         gens_total += trace.iter().filter(|x| x.1).count() as u64;
         if class != 0 { in_class += 1; w.count(&format!("(in class {})", class), 1); }
         if obs.iter().any(|o| matches!(o, Obs::Weird(_))) { w.count("(weird)", 1); }
         w.push(case_term(&h, &obs), show_hist(&h), nontrivial(&h, &obs), kind);
     }
-    let _ = std::fs::remove_dir_all(&dir);
     w.finish(&[("cases_in_known_classes".to_string(), in_class.to_string()), ("generated_ids_observed".to_string(), gens_total.to_string())]);
+}
+
+/// run the histories on the implementation, several databases at a time (each worker has its own
+/// directory; results come back in input order, so the run is reproducible)
+fn run_all(hs: &[Hist], tag: &str) -> Vec<Vec<Obs>> {
+    let workers = 8usize;
+    let next = std::sync::atomic::AtomicUsize::new(0);
+    let out: Vec<std::sync::Mutex<Option<Vec<Obs>>>> = hs.iter().map(|_| std::sync::Mutex::new(None)).collect();
+    std::thread::scope(|sc| {
+        for wi in 0..workers {
+            let next = &next;
+            let out = &out;
+            let dir = tmp_dir(&format!("{}{}", tag, wi));
+            sc.spawn(move || {
+                loop {
+                    let i = next.fetch_add(1, std::sync::atomic::Ordering::SeqCst);
+                    if i >= hs.len() { break; }
+                    let o = run_hist(&hs[i], &dir);
+                    *out[i].lock().unwrap() = Some(o);
+                }
+                let _ = std::fs::remove_dir_all(&dir);
+            });
+        }
+    });
+    out.into_iter().map(|m| m.into_inner().unwrap().unwrap_or_default()).collect()
 }
 
 /// Oracle only: the observed ids of every history must be fresh and increasing.
 fn search(a: &Args) {
     let mut rng = Rng::new(a.seed ^ 0xC12_5EA7);
-    let dir = tmp_dir("search");
     let mut fails: Vec<String> = vec![];
     let mut tried = 0u64;
     // each history costs a database on disk: the budget counts operations, not histories
     let budget = (a.budget / 40).clamp(500, 60_000);
     while tried < budget && fails.len() < 40 {
-        let (h, _) = gen_history(&mut rng, true);
-        let obs = run_hist(&h, &dir);
-        let (trace, agrees, class) = judge(&h, &obs);
-        if !fresh_increasing(&trace) {
-            let c = if agrees { class } else { 0 };
-            fails.push(format!("{} class={}", show_hist(&h), c));
+        let hs: Vec<Hist> = (0..400).map(|_| gen_history(&mut rng, true).0).collect();
+        let all_obs = run_all(&hs, "search");
+        for (h, obs) in hs.iter().zip(all_obs.iter()) {
+            let (trace, agrees, class) = judge(h, obs);
+            if !fresh_increasing(&trace) {
+                let c = if agrees { class } else { 0 };
+                fails.push(format!("{} class={}", show_hist(h), c));
+            }
+            tried += 1;
         }
-        tried += 1;
     }
-    let _ = std::fs::remove_dir_all(&dir);
     let mut out = format!("tried={}\n", tried);
     for f in &fails { out.push_str("FAIL "); out.push_str(f); out.push('\n'); }
     std::fs::write(&a.out, out).expect("write search output");
